@@ -126,8 +126,13 @@ def classify(fn, args, kwargs, level):
         v["outcome"] = "AnnErr"
     except Exception as e:  # noqa
         mod = type(e).__module__ or ""
-        if level == "verdict" and (isinstance(e, TypeError) or mod.startswith("beartype")):
+        if level in ("verdict", "note") and (isinstance(e, TypeError) or mod.startswith("beartype")):
             v["outcome"] = "TCE"       # old style: the checker's own exception class
+            if level == "note":
+                # old style: the bindings in force are attached to the checker's exception as a note
+                notes = [n for n in getattr(e, "__notes__", []) if "jaxtyping" in n]
+                v["printed"] = parse_tce(notes[0])["printed"] if notes else {"single": {}, "variadic": {}}
+                v["notes"] = len(notes)
         else:
             v["outcome"] = "Exc:" + type(e).__name__
             v["msg"] = str(e)[:200]
@@ -176,7 +181,7 @@ def run_call_variants(case, *, checkers=("typeguard", "beartype"), spellings=("n
                         a, kw = [], {names[i]: arrs[i] for i in order}
                     else:
                         a, kw = [], {names[i]: arrs[i] for i in reversed(order)}
-                    level = "full" if (sp == "new") else "verdict"
+                    level = "full" if (sp == "new") else ("note" if oi == 0 else "verdict")
                     v = classify(fn, a, kw, level)
                     v["desc"] = f"{ck}/{sp}/order={order}/{pa}"
                     if oi > 0 and v["level"] == "full":
